@@ -184,7 +184,7 @@ Proof.
       set (olds := flat_map (fun p => match path_of b p with
                                       | Some pa => opt_list (id_of_path a pa)
                                       | None => [] end) P1) in *.
-      set (cur := dedupe (P1 ++ olds)) in *.
+      set (cur := filter (fun i => negb (mem i C)) (dedupe (P1 ++ olds))) in *.
       destruct (map_opt (examine a b []) cur) as [rs|] eqn:M; [|discriminate].
       destruct (map_opt_some _ _ _ M) as [M1 M2].
       set (em := map fst (filter (fun r => snd r) rs)) in *.
@@ -198,7 +198,8 @@ Proof.
       split; [|split].
       * intros p Hp. destruct (mem p C) eqn:Mp.
         -- left. apply HC. apply in_or_app. left. apply mem_In. exact Mp.
-        -- right. apply Hex. apply in_or_app. right. unfold cur. apply dedupe_In.
+        -- right. apply Hex. apply in_or_app. right. unfold cur. apply filter_In.
+           split; [|rewrite Mp; reflexivity]. apply dedupe_In.
            apply in_or_app. left. unfold P1. apply filter_In.
            split; [apply dedupe_In; exact Hp | rewrite Mp; reflexivity].
       * intros x Hx. destruct (HX x Hx) as [Hx'|Hx']; [|right; exact Hx'].
@@ -395,38 +396,14 @@ Proof.
   split; vm_compute; reflexivity.
 Qed.
 
-(* W2: d(1) renamed to e, new directory d(3), d/x(2) reparented; filter {e}:
-   id 1 is yielded by the main loop and again by _handle_precise_ids *)
+(* W2 (regression witness of the repaired duplicate): d(1) renamed to e, new directory d(3),
+   d/x(2) reparented; filter {e} *)
 Definition w2a : tree := [(0, D0); (1, dr 0 100); (2, fl 1 120 49)].
 Definition w2b : tree := [(0, D0); (1, dr 0 101); (2, fl 3 120 49); (3, dr 0 100)].
 
-Lemma generic_duplicates_refuted :
-  valid_tree w2a /\ valid_tree w2b /\
-  exists l, generic w2a w2b (Some [[[101%N]]]) false = Some l /\ ids_of l = [1; 2; 3; 1] /\
-  exists l', chk w2a w2b (Some [[[101%N]]]) false = Some l' /\ ids_of l' = [1; 2; 3; 1].
-Proof.
-  split; [vm_compute; reflexivity|]. split; [vm_compute; reflexivity|].
-  eexists. split; [vm_compute; reflexivity|]. split; [reflexivity|].
-  eexists. split; [vm_compute; reflexivity|]. reflexivity.
-Qed.
-
-(* W3: include_unchanged below a renamed directory: the CHK glue reports the unchanged
-   child d/x with the NEW path on both sides, the generic walker with (old, new) *)
+(* W3 (regression witness of the repaired CHK include_unchanged paths) *)
 Definition w3a : tree := [(0, D0); (1, dr 0 100); (2, fl 1 120 49)].
 Definition w3b : tree := [(0, D0); (1, dr 0 101); (2, fl 1 120 49)].
-
-Lemma chk_include_unchanged_refuted :
-  valid_tree w3a /\ valid_tree w3b /\
-  exists lg lc, generic w3a w3b None true = Some lg /\ chk w3a w3b None true = Some lc /\
-    In (mk_change w3a w3b 2) lg /\ ~ In (mk_change w3a w3b 2) lc /\
-    exists c, In c lc /\ c_id c = 2 /\ c_path c = (Some [[101%N]; [120%N]], Some [[101%N]; [120%N]]).
-Proof.
-  split; [vm_compute; reflexivity|]. split; [vm_compute; reflexivity|].
-  eexists. eexists. split; [vm_compute; reflexivity|]. split; [vm_compute; reflexivity|].
-  split; [vm_compute; tauto|]. split.
-  - vm_compute. intros [H|[H|[H|[]]]]; discriminate.
-  - eexists. split; [right; right; left; reflexivity|]. split; reflexivity.
-Qed.
 
 (* ------------------------------------------------------------ combined statements *)
 
@@ -494,5 +471,195 @@ Proof.
 Qed.
 
 Example closure_nonvacuous :
-  exists l ex, generic_full w2a w2b (Some [[[101%N]]]) false = Some (l, ex) /\ ex = [3; 0; 1; 0].
-Proof. eexists. eexists. split; [vm_compute; reflexivity | reflexivity]. Qed.
+  exists l ex, generic_full w2a w2b (Some [[[101%N]]]) false = Some (l, ex) /\ ex <> [].
+Proof. eexists. eexists. split; [vm_compute; reflexivity | discriminate]. Qed.
+
+(* ------------------------------------------------------------ no duplicates (since 5cddeb1) *)
+
+Lemma nodup_app : forall (l l' : list fid), NoDup l -> NoDup l' ->
+  (forall x, In x l -> ~ In x l') -> NoDup (l ++ l').
+Proof.
+  induction l as [|x l IH]; intros l' H1 H2 Hd; cbn; [exact H2|].
+  inversion H1 as [|? ? Hx Hl]; subst. constructor.
+  - intro Hin. apply in_app_or in Hin as [Hin|Hin]; [contradiction|]. apply (Hd x); [left; reflexivity | exact Hin].
+  - apply IH; [exact Hl | exact H2 | intros y Hy; apply Hd; right; exact Hy].
+Qed.
+
+Lemma nodup_map_filter : forall {A} (f : A -> fid) (p : A -> bool) l,
+  NoDup (map f l) -> NoDup (map f (filter p l)).
+Proof.
+  intros A f p. induction l as [|x l IH]; intro H; cbn; [constructor|].
+  cbn in H. inversion H as [|? ? Hx Hl]; subst.
+  destruct (p x); cbn; [|apply IH; exact Hl]. constructor; [|apply IH; exact Hl].
+  intro Hin. apply Hx. apply in_map_iff in Hin as (y & E & Hy). apply filter_In in Hy as [Hy _].
+  apply in_map_iff. exists y. auto.
+Qed.
+
+Lemma in_map_filter : forall {A} (f : A -> fid) (p : A -> bool) l x,
+  In x (map f (filter p l)) -> In x (map f l).
+Proof.
+  intros A f p l x H. apply in_map_iff in H as (y & E & Hy). apply filter_In in Hy as [Hy _].
+  apply in_map_iff. exists y. auto.
+Qed.
+
+Lemma keys_above_not_in : forall t k, keys_above k t -> ~ In k (keys t).
+Proof.
+  induction t as [|[j e] r IH]; cbn; intros k H; [tauto|].
+  destruct H as [H1 H2]. intros [E|Hin]; [lia | exact (IH k H2 Hin)].
+Qed.
+
+Lemma sorted_keys_nodup : forall t, sorted t -> NoDup (keys t).
+Proof.
+  induction t as [|[i e] r IH]; cbn; intro S; [constructor|].
+  destruct S as [K S]. constructor; [apply keys_above_not_in; exact K | apply IH; exact S].
+Qed.
+
+Lemma map_opt_examine_ids : forall a b cur rs,
+  map_opt (examine a b []) cur = Some rs -> map (fun r => c_id (fst r)) rs = cur.
+Proof.
+  intros a b. induction cur as [|x cur IH]; intros rs H; cbn [map_opt] in H.
+  - injection H as <-. reflexivity.
+  - destruct (examine a b [] x) as [[c chg]|] eqn:Fx; [|discriminate].
+    destruct (map_opt (examine a b []) cur) as [ys|] eqn:M; [|discriminate]. injection H as <-.
+    cbn [map fst]. rewrite (IH ys eq_refl). destruct (examine_nodisc a b x c chg Fx) as (-> & _ & _). reflexivity.
+Qed.
+
+Lemma c_id_removal : forall a b i, c_id (removal_change a b i) = i.
+Proof. intros. unfold removal_change. destruct (lookup i a); reflexivity. Qed.
+
+(* the closure loop never yields an id that is already in changed_file_ids *)
+Lemma handle_nodup : forall fuel a b P C out ex o C' ex',
+  handle fuel a b [] P C out ex = Some (o, C', ex') -> NoDup C -> NoDup C'.
+Proof.
+  induction fuel as [|f IH]; intros a b P C out ex o C' ex' H ND; cbn [handle] in H.
+  - destruct (filter (fun i => negb (mem i C)) (dedupe P)); [|discriminate].
+    injection H as _ <- _. exact ND.
+  - destruct (filter (fun i => negb (mem i C)) (dedupe P)) as [|q P1'] eqn:EP.
+    + injection H as _ <- _. exact ND.
+    + rewrite <- EP in H. set (P1 := filter (fun i => negb (mem i C)) (dedupe P)) in *.
+      set (olds := flat_map (fun p => match path_of b p with
+                                      | Some pa => opt_list (id_of_path a pa)
+                                      | None => [] end) P1) in *.
+      set (cur := filter (fun i => negb (mem i C)) (dedupe (P1 ++ olds))) in *.
+      destruct (map_opt (examine a b []) cur) as [rs|] eqn:M; [|discriminate].
+      apply IH in H; [exact H|].
+      pose proof (map_opt_examine_ids a b cur rs M) as Hids.
+      assert (NDcur : NoDup cur) by (unfold cur; apply NoDup_filter; unfold dedupe; apply NoDup_nodup).
+      rewrite map_map. apply nodup_app; [exact ND | |].
+      * apply nodup_map_filter. rewrite Hids. exact NDcur.
+      * intros x Hx Hin. apply in_map_filter in Hin. rewrite Hids in Hin.
+        unfold cur in Hin. apply filter_In in Hin as [_ Hm]. apply negb_true_iff, mem_false in Hm. contradiction.
+Qed.
+
+Lemma main_ids_nodup : forall a b S incl, sorted a -> sorted b ->
+  NoDup (map c_id (fst (generic_main a b S incl) ++ snd (generic_main a b S incl))).
+Proof.
+  intros a b S incl Sa Sb. unfold generic_main. cbn [fst snd]. rewrite map_app.
+  set (tgt := filter (in_sel S) (keys b)). set (src := filter (in_sel S) (keys a)).
+  assert (E1 : map c_id (map (mk_change a b) tgt) = tgt)
+    by (rewrite map_map; rewrite <- (map_id tgt) at 2; apply map_ext; intro; reflexivity).
+  assert (E2 : forall l, map c_id (map (removal_change a b) l) = l)
+    by (intro l; rewrite map_map; rewrite <- (map_id l) at 2; apply map_ext; intro; apply c_id_removal).
+  assert (Nt : NoDup tgt) by (apply NoDup_filter, sorted_keys_nodup; exact Sb).
+  apply nodup_app.
+  - apply nodup_map_filter. rewrite E1. exact Nt.
+  - rewrite E2. apply NoDup_filter, NoDup_filter, sorted_keys_nodup. exact Sa.
+  - intros x Hx Hin. apply in_map_filter in Hx. rewrite E1 in Hx. rewrite E2 in Hin.
+    apply filter_In in Hin as [_ Hm]. apply negb_true_iff, mem_false in Hm. contradiction.
+Qed.
+
+Theorem generic_no_duplicates : forall a b F incl l ex,
+  sorted a -> sorted b -> generic_full a b F incl = Some (l, ex) -> NoDup (ids_of l).
+Proof.
+  intros a b F incl l ex Sa Sb H. unfold generic_full in H.
+  pose proof (main_ids_nodup a b (specific_ids a b F) incl Sa Sb) as Hm.
+  destruct (generic_main a b (specific_ids a b F) incl) as [em rm]. cbn [fst snd] in Hm.
+  destruct (specific_ids a b F) as [s|].
+  - destruct (handle _ a b [] _ _ [] []) as [[[h C'] ex']|] eqn:Hh; [|discriminate].
+    injection H as <- <-.
+    pose proof (handle_nodup _ _ _ _ _ _ _ _ _ _ Hh Hm) as HN.
+    apply handle_closed in Hh as (_ & _ & _ & _ & (h' & Ho & HC' & _)). cbn in Ho. subst h'.
+    unfold ids_of. rewrite app_assoc, map_app, <- HC'. exact HN.
+  - injection H as <- <-. exact Hm.
+Qed.
+
+Example w2_no_duplicates :
+  exists l l', generic w2a w2b (Some [[[101%N]]]) false = Some l /\ ids_of l = [1; 2; 3] /\
+               chk w2a w2b (Some [[[101%N]]]) false = Some l' /\ ids_of l' = [1; 2; 3].
+Proof. eexists. eexists. split; [vm_compute; reflexivity|]. split; [reflexivity|]. split; [vm_compute; reflexivity | reflexivity]. Qed.
+
+(* ------------------------------------------------------------ CHK include_unchanged (since b515e80) *)
+
+Lemma content_differs_refl : forall e, content_differs e e = false.
+Proof.
+  intro e. unfold content_differs.
+  assert (K : kind_eqb (e_kind e) (e_kind e) = true) by (apply kind_eqb_iff; reflexivity).
+  rewrite K. cbn. destruct (e_kind e); rewrite ?bytes_eqb_refl'; reflexivity.
+Qed.
+
+Lemma unchanged_is_mk_change : forall a b i e,
+  lookup i a = Some e -> lookup i b = Some e -> unchanged_change a b i e = mk_change a b i.
+Proof.
+  intros a b i e La Lb. unfold unchanged_change, mk_change. rewrite La, Lb. cbn.
+  rewrite content_differs_refl. reflexivity.
+Qed.
+
+Theorem chk_unfiltered_incl_spec : forall a b, valid_tree a -> valid_tree b ->
+  exists l, chk a b None true = Some l /\ forall c, In c l <-> In c (changes_gen true a b).
+Proof.
+  intros a b Va Vb.
+  destruct (valid_tree_parts a Va) as [Sa Na], (valid_tree_parts b Vb) as [Sb Nb].
+  unfold chk. cbn [specific_ids in_sel andb]. eexists. split; [reflexivity|]. intro c.
+  rewrite in_app_iff, in_flat_map.
+  assert (Hids : forall i, In i (map c_id (changes a b)) <->
+                           ((In i (keys a) \/ In i (keys b)) /\ is_changed (mk_change a b i) = true)).
+  { intro i. rewrite in_map_iff. split.
+    - intros (c' & E & Hc'). apply in_changes_gen in Hc' as (j & Hj & -> & Hch). cbn in E. subst j.
+      cbn in Hch. auto.
+    - intros [Hk Hch]. exists (mk_change a b i). split; [reflexivity|].
+      apply in_changes_gen. exists i. cbn. auto. }
+  split.
+  - intros [Hc|((i, e) & Hie & Hc)].
+    + apply in_changes_gen in Hc as (i & Hi & -> & Hch). apply in_changes_gen. exists i. auto.
+    + cbn [fst snd] in Hc.
+      destruct (mem i (map c_id (changes a b))) eqn:M; cbn in Hc; [destruct Hc|].
+      destruct Hc as [<-|[]]. apply mem_false in M.
+      pose proof (in_lookup b i e Sb Hie) as Lb.
+      assert (Hkb : In i (keys b)) by (apply lookup_in_keys; rewrite Lb; discriminate).
+      assert (Hu : is_changed (mk_change a b i) = false).
+      { destruct (is_changed (mk_change a b i)) eqn:E; [|reflexivity].
+        exfalso. apply M. apply Hids. auto. }
+      pose proof (is_changed_false_eq a b i Na Nb Hu) as Eq. rewrite Lb in Eq.
+      rewrite (unchanged_is_mk_change a b i e Eq Lb).
+      apply in_changes_gen. exists i. auto.
+  - intro Hc. apply in_changes_gen in Hc as (i & Hi & -> & _).
+    destruct (is_changed (mk_change a b i)) eqn:E.
+    + left. apply in_changes_gen. exists i. cbn. auto.
+    + right. pose proof (is_changed_false_eq a b i Na Nb E) as Eq.
+      assert (Hkb : In i (keys b)).
+      { destruct Hi as [Hi|Hi]; [|exact Hi]. apply lookup_in_keys. rewrite <- Eq. apply lookup_in_keys. exact Hi. }
+      destruct (in_keys_lookup b i Hkb) as [e Lb]. rewrite Lb in Eq.
+      exists (i, e). split; [apply lookup_in; exact Lb|]. cbn [fst snd].
+      assert (M : mem i (map c_id (changes a b)) = false).
+      { apply mem_false. intro Hin. apply Hids in Hin as [_ Hch]. rewrite E in Hch. discriminate. }
+      rewrite M. cbn. left. apply unchanged_is_mk_change; assumption.
+Qed.
+
+Theorem optimised_equals_generic_unfiltered_incl : forall a b incl, valid_tree a -> valid_tree b ->
+  exists lg lc, generic a b None incl = Some lg /\ chk a b None incl = Some lc /\
+                forall c, In c lg <-> In c lc.
+Proof.
+  intros a b incl Va Vb. destruct (generic_unfiltered_spec a b incl) as (lg & Hg & Hin).
+  destruct incl.
+  - destruct (chk_unfiltered_incl_spec a b Va Vb) as (lc & Hc & Hinc).
+    exists lg, lc. split; [exact Hg|]. split; [exact Hc|]. intro c. rewrite Hin, Hinc. tauto.
+  - exists lg, (changes a b). split; [exact Hg|]. split; [apply chk_unfiltered_spec|]. exact Hin.
+Qed.
+
+Example w3_chk_unchanged_paths :
+  exists lc c, chk w3a w3b None true = Some lc /\ In c lc /\ c = mk_change w3a w3b 2 /\
+               c_path c = (Some [[100%N]; [120%N]], Some [[101%N]; [120%N]]).
+Proof.
+  eexists. eexists. split; [vm_compute; reflexivity|].
+  split; [right; right; left; reflexivity|]. split; reflexivity.
+Qed.
